@@ -85,7 +85,7 @@ def run(ctx):
             ops = open(opsf).read().splitlines()
             impl = open(os.path.join(ctx.work, "http.impl")).read().splitlines()
             model = e3.run_driver(ctx, binp, opsf, "http")
-            e3.compare(ctx, "http", ops, impl, model, corr_broken)
+            e3.compare(ctx, "http", ops, impl, model, corr_broken, binp=binp, testname="TestVerifE3HTTP")
             for o, i in list(zip(ops, impl)):
                 if o.startswith("http ") and len(o) < 300:
                     ctx.add_sample({"op": o, "impl": i[:300]})
